@@ -106,11 +106,38 @@ def impl_pending(world):
     return out
 
 
+def hidden_state(world):
+    """Every instance attribute of the writer, with the random names of temporary files replaced by their order of
+    appearance: two states are only merged when ALL of the writer's own state agrees, whatever attributes it has."""
+    import re
+    text = repr(sorted((k, repr(v)) for k, v in vars(world['writer']).items()))
+    text = text.replace(world['base'], '')
+    names = []
+    for match in re.finditer(r'/tmp/([A-Za-z0-9_.-]+)', text):
+        if match.group(1) not in names:
+            names.append(match.group(1))
+    for idx, name in enumerate(names):
+        text = text.replace(name, 'T%d' % idx)
+    return re.sub(r'0x[0-9a-f]+', '0x', text)
+
+
+PREFIXES = {'discard-a': [['open', 'a', 'w'], ['close']], 'discard-b-append': [['open', 'b', 'a'], ['close']],
+            'finalise-a': [['open', 'a', 'w'], ['write']]}
+
+
 class Spec:
     def initials(self):
-        return list(INITIALS)
+        # also start from states reached by a discarded or a finalised attempt (not only from untouched writers)
+        return list(INITIALS) + ['%s~%s' % (i, p) for i in ('none', 'a', 'all') for p in PREFIXES]
 
     def build(self, initial):
+        if '~' in initial:
+            base_name, prefix = initial.split('~')
+            world = self.build(base_name)
+            for op in PREFIXES[prefix]:
+                self.apply(world, op)       # violations on the way belong to the plain histories and are reported there
+            world['finalised'] = 0
+            return world
         import tempfile
         base = tempfile.mkdtemp(dir=root())
         work, tmp = os.path.join(base, 'work'), os.path.join(base, 'tmp')
@@ -161,6 +188,7 @@ class Spec:
         return {'dir': sorted((k, v.decode()) for k, v in listing(world['work']).items()),
                 'pending': [[p, m, c.decode()] for p, m, c in world['pending']],
                 'impl_pending': impl_pending(world),
+                'hidden': hidden_state(world),
                 'tmp': sorted(v.decode() for v in listing(world['tmp']).values())}
 
     def token(self, world, path, mode):
